@@ -37,7 +37,10 @@ EXPLANATION = (
     'priority -bottleneck (no decrease-key); the search loop is cut short (and '
     'the relaxation skipped) only on tests of the finalised mask at the sinks, '
     'never on a test of the tentative labels (predecessor / bottleneck) of the '
-    'sinks alone; (D3) the working matrix of a '
+    'sinks alone (`<popped node> in sinks` is a test of a finalised sink); the path must not be made to end at the node '
+    'popped last when the statement that seeds it is reachable from the loop test (frontier exhausted, no sink reached) '
+    'without a test; top_path and paths are judged with the module-level helpers they call written out in place '
+    '(sa/inline.py; a call that is the first thing a statement evaluates is written out in front of it); (D3) the working matrix of a '
     'removal scheme is what it returns and is bound once to a copy of the '
     'parameter; its stores (also those of a module-level helper called on it, '
     'one level) are compared after expansion (pure value helpers replaced by '
@@ -52,7 +55,9 @@ EXPLANATION = (
     'from 0 by 1 or len of the result list; fraction from 0 by flux / source '
     'row sum; the exit may be a break or a loop flag `while f:` that is set '
     'once per iteration with all later statements guarded by it, or a flag conjunct of the loop test that is only '
-    'cleared by statements after which nothing but pure branch tests runs before the loop header - such a clearing IS a break), '
+    'cleared by statements after which nothing but pure branch tests runs before the loop header - such a clearing IS a break; '
+    'or `F = E; while F:` with F only cleared or re-assigned the same E directly before the header on every way round the loop, '
+    'which is `while E:` with the clearings as breaks), '
     'tested after recording and before the removal whose result '
     'replaces the working copy; a loop test `while <counter> < num_paths [and '
     '<fraction> < flux_cutoff]` is accepted in addition to those guards; '
@@ -70,13 +75,185 @@ EXPLANATION = (
 
 def check(ck):
     mod = ck.repo.mod(PA)
-    d2_top_path(ck, mod)
+    # the search and the driver loop are judged with their module-level helpers written out in place (see _inlined_view)
+    view = _inlined_view(ck, mod, ('top_path', 'paths'), keep=('top_path', 'paths', '_remove_bottleneck', '_subtract_path_flux'))
+    d2_top_path(ck, view)
     schemes = d3_removal(ck, mod)
-    d4_paths(ck, mod, schemes)
+    d4_paths(ck, view, schemes)
     check_no_arg_mutation(ck, 'C17.D1.inputs-unmodified', [
         (PA, 'top_path'), (PA, 'paths'), (PA, '_remove_bottleneck'), (PA, '_subtract_path_flux')])
     d1_views(ck, mod, [('top_path', 2), ('paths', 2), ('_remove_bottleneck', 0), ('_subtract_path_flux', 0)])
+    if view is not mod:
+        # (stores that a helper makes through a view of the matrix it was handed are stores of the caller once written out)
+        d1_views(ck, view, [('top_path', 2), ('paths', 2)])
     return EXPLANATION
+
+
+# ---------------------------------------------------------------------------
+# helpers written out in place (rule-level view; nothing is executed)
+
+def _eval_children(e):
+    """Sub-expressions of `e` in the order Python evaluates them, for the node types whose operands are all
+    evaluated unconditionally and left to right; None for anything else (conditional / deferred evaluation:
+    BoolOp, IfExp, comprehensions, lambda ...)."""
+    if isinstance(e, ast.Call):
+        if any(isinstance(a, ast.Starred) for a in e.args) or any(k.arg is None for k in e.keywords):
+            return None
+        return [e.func] + list(e.args) + [k.value for k in e.keywords]
+    if isinstance(e, (ast.Tuple, ast.List, ast.Set)):
+        return None if any(isinstance(a, ast.Starred) for a in e.elts) else list(e.elts)
+    if isinstance(e, ast.Attribute):
+        return [e.value]
+    if isinstance(e, ast.Subscript):
+        return [e.value, e.slice]
+    if isinstance(e, ast.BinOp):
+        return [e.left, e.right]
+    if isinstance(e, ast.UnaryOp):
+        return [e.operand]
+    if isinstance(e, ast.Compare) and len(e.ops) == 1:
+        return [e.left, e.comparators[0]]
+    if isinstance(e, (ast.Name, ast.Constant)):
+        return []
+    return None
+
+
+def _is_reference(e):
+    """Evaluating `e` only fetches object references (a local name, a constant, an attribute / bound method of those):
+    no value is computed that a later call could have changed, nothing is executed."""
+    if isinstance(e, (ast.Name, ast.Constant)):
+        return True
+    return isinstance(e, ast.Attribute) and _is_reference(e.value)
+
+
+def _first_call(e, wanted):
+    """The call node of `e` (a call of one of the functions `wanted`) that is evaluated BEFORE anything else that
+    computes a value or has an effect: all that precedes it in evaluation order are reference fetches, and it is
+    evaluated unconditionally, once.  ('found', call) / ('clean', None) if `e` is a mere reference / ('dirty', None)."""
+    if isinstance(e, ast.Call) and isinstance(e.func, ast.Name) and e.func.id in wanted:
+        # its own arguments are evaluated as part of the call statement that replaces it
+        return ('found', e)
+    if _is_reference(e):
+        return ('clean', None)
+    kids = _eval_children(e)
+    if kids is None:
+        return ('dirty', None)
+    for k in kids:
+        st = _first_call(k, wanted)
+        if st[0] != 'clean':
+            return st
+    # every operand is a reference but `e` itself computes (a call / an index / an operation)
+    return ('dirty', None)
+
+
+def _write_out_calls(fn, helpers):
+    """`S(... h(a) ...)`  ->  `<body of h with its result bound to t>; S(... t ...)` for simple statements S
+    (expression statement, assignment, return) in which the helper call is the first thing evaluated (see
+    _first_call) - the statement then does exactly what it did, in the same order.  Binding of the parameters, renaming
+    of the helper's locals and the conditions under which a body can be written out are those of sa/inline.py
+    (expand_call / _rewrite_returns); a helper it refuses stays a call.  Whole-statement forms (`h(a)`, `x = h(a)`,
+    `return h(a)`) are left to inline.Inliner.  Rewrites `fn` in place; returns the names of the helpers written out."""
+    import copy as _copy
+    from .. import inline
+    done = []
+    count = [0]
+    wanted = set(helpers)
+
+    def block(stmts):
+        out = []
+        for s in stmts:
+            if isinstance(s, (ast.Expr, ast.Assign, ast.Return)) and s.value is not None and \
+                    not (isinstance(s.value, ast.Call) and isinstance(s.value.func, ast.Name) and s.value.func.id in wanted):
+                for _again in range(4):
+                    st = _first_call(s.value, wanted)
+                    if st[0] != 'found':
+                        break
+                    call = st[1]
+                    tmp = '__call%d_%s' % (count[0] + 1, call.func.id.strip('_'))
+                    try:
+                        caller_locals = inline._assigned_names(fn) | set(params(fn))
+                        prelude, body, _tag = inline.expand_call(helpers[call.func.id], call, caller_locals)
+                        if not inline._ends(body):
+                            raise inline._Refuse('helper can fall off its end while its value is used')
+                        body = inline._rewrite_returns(body, lambda e: [ast.copy_location(ast.Assign(
+                            targets=[ast.copy_location(ast.Name(id=tmp, ctx=ast.Store()), call)],
+                            value=e if e is not None else ast.copy_location(ast.Constant(value=None), call)), e if e is not None else call)])
+                    except inline._Refuse:
+                        break
+                    count[0] += 1
+                    done.append(call.func.id)
+                    s = _copy.copy(s)
+                    s.value = _replace_node(s.value, call, ast.copy_location(ast.Name(id=tmp, ctx=ast.Load()), call))
+                    out.extend(prelude + body)
+            elif not isinstance(s, (ast.FunctionDef, ast.AsyncFunctionDef, ast.ClassDef)):
+                for f in ('body', 'orelse', 'finalbody'):
+                    b = getattr(s, f, None)
+                    if isinstance(b, list) and b and isinstance(b[0], ast.stmt):
+                        setattr(s, f, block(b))
+                for h in getattr(s, 'handlers', []) or []:
+                    h.body = block(h.body)
+            out.append(s)
+        return out
+    fn.body = block(fn.body)
+    return done
+
+
+def _replace_node(root, old, new):
+    class R(ast.NodeTransformer):
+        def visit(self, n):
+            if n is old:
+                return new
+            return super().visit(n)
+    return R().visit(root)
+
+
+def _inlined_view(ck, mod, quals, keep=()):
+    """A copy of the module in which, inside the functions `quals`, every call of another module-level function of
+    the same file (not one of `keep`, the anchored functions that have their own rules) is replaced by the body of
+    that function: sa/inline.py (parameters bound in order, locals renamed apart, tail returns - also in guard-clause
+    form - turned into assignments of the result; refused for generators, recursion, returns inside loops ...), after
+    a call that is the first thing a statement evaluates is written out in front of the statement (_write_out_calls).  The
+    written-out statements keep the line numbers they have in the helper.  Extracting a step of an algorithm into a
+    helper does not change what the algorithm does; the rules then find the step where it is executed.  Returns
+    `mod` itself when there is nothing to write out."""
+    import copy as _copy
+    from .. import inline
+    from ..core import Module
+    helpers = {n: f for n, f in mod.functions.items() if '.' not in n and n not in keep and n not in quals}
+    called = set()
+    for q in quals:
+        fn = mod.functions.get(q)
+        if fn is not None:
+            called |= {c.func.id for c in ast.walk(fn) if isinstance(c, ast.Call) and isinstance(c.func, ast.Name) and c.func.id in helpers}
+    if not called:
+        return mod
+    try:
+        tree = _copy.deepcopy(mod.tree)
+        tops = {s.name: s for s in tree.body if isinstance(s, (ast.FunctionDef, ast.AsyncFunctionDef))}
+        hs = {n: tops[n] for n in helpers if n in tops}
+        done = {}
+        for q in quals:
+            fn = tops.get(q)
+            if fn is None:
+                continue
+            inl = inline.Inliner(hs)
+            names = []
+            for _round in range(3):
+                wrote = _write_out_calls(fn, hs)
+                names += wrote
+                if not inl.run(fn) and not wrote:
+                    break
+            if names or inl.done:
+                done[q] = sorted(set(names) | set(inl.done))
+        if not done:
+            return mod
+        ast.fix_missing_locations(tree)
+        view = Module(mod.rel, mod.src, tree, mod.kind)
+    except Exception as e:                       # the view is a convenience: without it the rules see the calls
+        ck.observe('C17.view', mod, None, 'helpers could not be written out in place: %r' % (e,))
+        return mod
+    ck.observe('C17.view', mod, None, 'judged with module-level helpers written out in place: %s' % '; '.join(
+        '%s <- %s' % (q, ', '.join(v)) for q, v in sorted(done.items())))
+    return view
 
 
 def d2_top_path(ck, mod):
@@ -283,9 +460,19 @@ def d2_top_path(ck, mod):
     ext = [c for c in calls_in(loop) if isinstance(c.func, ast.Attribute) and c.func.attr == 'extend' and u(c.func.value) == Q]
     if heap is not None:
         _heap_pushes(ck, mod, fi, rule, F, heap, loop, us, idx_t, V)
-    elif len(ext) == 1:
-        ck.check(fi.xu(ext[0].args[0], strict=False) == idx_t, rule + '.update', mod, ext[0], F, u(ext[0]), 'improved neighbours join the frontier',
-                 'the queue must be extended by exactly the updated neighbours (%s)' % idx_t[:80])
+    elif len(ext) == 1 and len(ext[0].args) == 1 and not ext[0].keywords:
+        # what joins the frontier, expanded at the extension; a name with two definitions one of which is provably empty
+        # (extending by nothing is a no-op) is judged on the other one, expanded where that definition stands
+        ea = ext[0].args[0]
+        eax = canon(fi.expand(ea, strict=False))
+        if isinstance(eax, ast.Name) and isinstance(ea, ast.Name):
+            live = _nonempty_def(mod, fi, ea, loop)
+            if live is not None:
+                eax = canon(fi.expand(live[1], strict=False))
+        same = u(eax) in (idx_t, u(idx))
+        v = ('match', {}) if same else classify(eax, [idx_t], scope={nf, TN, V, MF, NF})
+        ck.decide(v, rule + '.update', mod, ext[0], F, u(ext[0]), 'improved neighbours join the frontier',
+                  'the queue must be extended by exactly the updated neighbours (%s)' % idx_t[:80])
     else:
         ck.missing(rule + '.update', '`%s.extend(<updated neighbours>)` in the search loop' % Q)
     if PN is not None:
@@ -303,7 +490,7 @@ def d2_top_path(ck, mod):
         ck.missing(rule + '.report', 'single `return <path>, <flux>`')
         return
     rp, rf = r[0].value.elts
-    _report(ck, mod, fn, fi, loop, r[0], rp, rf, sinks, MF, PN)
+    _report(ck, mod, fn, fi, loop, r[0], rp, rf, sinks, MF, PN, TN)
 
 
 _EMPTY_ARRAYS = ('np.array([])', '[]', 'np.empty(0)', 'np.zeros(0)', 'np.array([], dtype=int)', 'np.empty(0, dtype=int)', 'np.zeros(0, dtype=int)',
@@ -382,6 +569,24 @@ def _reach(ck, mod, fi, rule, F, loop, us, NBX, V, sinks, MF=None, TN=None, upd=
         for e in es:
             names |= names_loaded(e)
         return sinks in names and bool(names & labels) and all(_closed_over(e, labels | {sinks}) for e in es)
+    def popped_sink(at):
+        """True: the atom says that the node just popped - which is finalised by being popped - is one of the sinks
+        (`<popped> in sinks`, np.isin(<popped>, sinks), (sinks == <popped>).any()); False: that it is none; else None."""
+        if TN is None:
+            return None
+        tn = {TN, 'int(%s)' % TN}
+        sk = {sinks, 'set(%s)' % sinks, 'list(%s)' % sinks, '%s.tolist()' % sinks, 'frozenset(%s)' % sinks}
+        if isinstance(at, Cmp):
+            if at.op in (ast.In, ast.NotIn) and fi.xu(at.lhs, strict=False) in tn and fi.xu(at.rhs, stop=(sinks,), strict=False) in sk:
+                return at.op is ast.In
+            return None
+        _, e, pol = at
+        t = fi.xu(e, stop=(sinks,), strict=False)
+        forms = set()
+        for x in tn:
+            forms |= {C('np.isin(%s, %s)' % (x, sinks)), C('(%s == %s).any()' % (sinks, x)), C('(%s == %s).any()' % (x, sinks)),
+                      C('np.in1d(%s, %s)' % (x, sinks)), C('any(%s == %s)' % (sinks, x))}
+        return bool(pol) if t in forms else None
     for a in sorted(_assumes(fi, mod, us, loop), key=lambda a: a.lineno):
         atoms = conjuncts(a.test, a.polarity)
         txt = '%s%s' % ('' if a.polarity else 'not ', u(a.test))
@@ -390,7 +595,11 @@ def _reach(ck, mod, fi, rule, F, loop, us, NBX, V, sinks, MF=None, TN=None, upd=
             continue
         for at in atoms:
             verdict = None          # True: harmless, False: opposite of a required condition
-            if isinstance(at, Cmp):
+            ps = popped_sink(at)
+            if ps is not None:
+                # the relaxation may be skipped once a sink has been popped (a finalised sink), never because none has
+                verdict = not ps
+            elif isinstance(at, Cmp):
                 l, r = fi.xu(at.lhs, strict=False), fi.xu(at.rhs, strict=False)
                 c = at if l in count else at.flipped() if r in count else None
                 k = const_value(c.rhs) if c is not None else None
@@ -429,7 +638,8 @@ def _reach(ck, mod, fi, rule, F, loop, us, NBX, V, sinks, MF=None, TN=None, upd=
         for a in conds:
             ats += conjuncts(a.test, a.polarity) or [None]
         txt = ' and '.join('%s%s' % ('' if a.polarity else 'not ', u(a.test)) for a in conds) or 'unconditionally'
-        done = [at for at in ats if isinstance(at, tuple) and at[2] and fi.xu(at[1], strict=False) in sink_done]
+        done = [at for at in ats if isinstance(at, tuple) and at[2] and fi.xu(at[1], strict=False) in sink_done] + \
+            [at for at in ats if at is not None and popped_sink(at) is True]
         lab = [at for at in ats if at is not None and labels_only(at)]
         if done:
             ck.ok(rule + '.reach', mod, x, txt, 'the search is cut short only after a sink has been finalised')
@@ -538,7 +748,7 @@ def _heap_pushes(ck, mod, fi, rule, F, heap, loop, us, idx_t, V):
     ck.missing(rule + '.pop', 'set of pushed nodes `%s` is not recognised as the set of updated neighbours `%s`' % (u(fl.iter)[:100], idx_t[:80]))
 
 
-def _report(ck, mod, fn, fi, loop, ret, rp, rf, sinks, MF, PN):
+def _report(ck, mod, fn, fi, loop, ret, rp, rf, sinks, MF, PN, TN=None):
     """Reconstruction of the path and the reported flux.  The path list P is
     "the list the returned array is built from"; how it grows (append =
     collected sink->source, insert(0, .) = built source->sink) fixes where the
@@ -586,7 +796,10 @@ def _report(ck, mod, fn, fi, loop, ret, rp, rf, sinks, MF, PN):
     if first_expr is None:
         ck.missing(rule + '.report', 'first element (chosen sink) of the path list %s' % P)
         return
-    v = classify(fi.expand(first_expr, stop=(sinks,)), best, scope={sinks, MF})
+    fx = fi.expand(first_expr, stop=(sinks,))
+    v = classify(fx, best, scope={sinks, MF})
+    if v[0] != 'match' and TN is not None and _ends_at_popped_node(ck, mod, fi, loop, first_expr, fx, first_at, TN, sinks, MF, rule, F):
+        return
     ck.decide(v, rule + '.report', mod, first_at, F, u(first_expr), 'the sink with the largest bottleneck ends the path',
               'the path must end at sinks[argmax(min_fluxes[sinks])]')
 
@@ -644,6 +857,43 @@ def _report(ck, mod, fn, fi, loop, ret, rp, rf, sinks, MF, PN):
     # the pushed value is the link that was tested: no step in between may move the head
     if vg[0] == 'match' and not _every_iteration(mod, gs, b):
         ck.missing(rule + '.report', 'the growth step `%s` is conditional inside the back-trace loop' % u(gs))
+
+
+def _ends_at_popped_node(ck, mod, fi, loop, first_expr, fx, first_at, TN, sinks, MF, rule, F):
+    """WRONG OPERAND in the role "end of the path": the node the search loop popped last instead of the best sink.
+    The popped node is a sink only on the ways out of the loop that test it (a `break` under `<popped> in sinks`);
+    the loop also ends through its own test when the frontier is exhausted - no sink reachable from the sources -
+    and the node popped last is then whatever had the smallest bottleneck.  If the statement that seeds the path
+    can be reached from the loop test without passing a `break`, and no branch condition on the way there looks at
+    the popped node / the sinks / the labels, the path can end in a non-sink state (with a finite reported flux,
+    where -inf is what tells paths() that no pathway is left): VIOLATION.  With such a condition in between the rule
+    does not decide (incomplete).  Returns True if it reported something."""
+    e = fx
+    while isinstance(e, ast.Call) and call_name(e) == 'int' and len(e.args) == 1 and not e.keywords:
+        e = e.args[0]
+    if not (isinstance(e, ast.Name) and e.id == TN):
+        return False
+    if _inside(mod, first_at, loop):
+        return False
+    breaks = [x for x in walk_local(loop) if isinstance(x, ast.Break) and _loop_of(mod, x, None) is loop]
+    if not fi.cfg.reachable(loop, first_at, avoiding=breaks):
+        ck.missing(rule + '.report', 'the path ends at the node popped last (`%s`), reached only through a break of the search loop: '
+                   'whether that node is the sink with the largest bottleneck is not decided' % u(first_expr))
+        return True
+    watched = {TN, sinks, MF}
+    conds = [a for a in fi.cfg.dom.get(first_at, ()) if isinstance(a, Assume) and not _inside(mod, a.owner, loop)
+             and (names_loaded(a.test) & watched or any(isinstance(c, ast.Call) for c in ast.walk(a.test)))]
+    if conds:
+        ck.missing(rule + '.report', 'the path ends at the node popped last (`%s`) under the condition `%s`: whether that excludes an '
+                   'exhausted frontier is not decided' % (u(first_expr), u(conds[0].test)[:80]))
+        return True
+    ck.bad(rule + '.report', mod, first_at, F, u(first_expr),
+           'the path is made to end at `%s`, the node the search loop popped LAST, instead of %s[argmax(%s[%s])]: that node is a sink only '
+           'when the loop was left on a test of it; the loop `while %s` also ends when the frontier is exhausted (no sink can be reached from '
+           'the sources) and `%s` is reached from there without any test - the node popped last is then an arbitrary non-sink state, the '
+           'returned "pathway" does not end in a sink and its flux is finite where -inf must tell paths() that no pathway is left' % (
+               u(first_expr), sinks, MF, sinks, u(loop.test)[:40], u(first_at)[:60]))
+    return True
 
 
 def _carried_head(mod, fi, b, P, gs, garg, first_expr, first_at, sinks, test_forms):
@@ -1525,6 +1775,108 @@ def _flag_breaks(mod, fn, fi, loop):
     return None
 
 
+def _flag_header(mod, fn, fi, loop):
+    """`F = E; while F [and <rest>]:` where the flag F is a positive conjunct of the loop test and inside the loop is
+    only assigned (a) a falsy constant or (b) the SAME pure expression E that initialises it, always by statements
+    after which nothing is executed before control is back at the loop header (only pure branch tests, `pass` and
+    `continue` lie in between), and every way round the loop passes such a statement.  Then at every evaluation of the
+    loop test F is either False because of an (a)-statement - which therefore leaves the loop exactly like `break` - or
+    it holds the value E has at that very moment (no operand of E can change between the assignment and the test;
+    before the first test: no statement between the initialisation and the loop binds or mutates an operand of E).
+    The loop is `while E [and <rest>]:` with the (a)-statements as breaks.
+    Returns (F, [clearing statements], [E] + remaining conjuncts) or None."""
+    from ..normal import is_pure
+    if loop.orelse or not is_pure(loop.test):
+        return None
+    t = loop.test
+    vals = t.values if isinstance(t, ast.BoolOp) and isinstance(t.op, ast.And) else [t]
+    for cand in vals:
+        if not isinstance(cand, ast.Name):
+            continue
+        FLAG = cand.id
+        inner = [s for s in assigns_to(loop, FLAG)]
+        if not inner or fi._mutated_in_place(FLAG):
+            continue
+        outer = [d for d in fi.defs_of_use(cand) if d not in inner]
+        if len(outer) != 1 or not isinstance(outer[0], ast.Assign) or _inside(mod, outer[0], loop) or not (
+                len(outer[0].targets) == 1 and isinstance(outer[0].targets[0], ast.Name)):
+            continue
+        init = outer[0]
+        E = init.value
+        if const_value(E, 'x') != 'x' or not is_pure(E) or FLAG in names_loaded(E):
+            continue
+        # initialisation and loop are neighbours in one statement list, nothing in between touches an operand of E
+        holder = mod.parent.get(loop)
+        sibs = None
+        for f in ('body', 'orelse', 'finalbody'):
+            b = getattr(holder, f, None)
+            if isinstance(b, list) and loop in b and init in b:
+                sibs = b[b.index(init) + 1:b.index(loop)]
+        if sibs is None:
+            continue
+        ops = names_loaded(E)
+        touched = False
+        for s in sibs:
+            for x in ast.walk(s):
+                if isinstance(x, ast.Name) and isinstance(x.ctx, (ast.Store, ast.Del)) and x.id in ops | {FLAG}:
+                    touched = True
+            if any(s in fi._mutated_in_place(o) for o in ops) or any(isinstance(x, (ast.Break, ast.Continue, ast.Return, ast.Raise)) for x in ast.walk(s)):
+                touched = True
+        if touched:
+            continue
+        Et = u(canon(E))
+        clears, good = [], True
+        for s in inner:
+            if not (isinstance(s, ast.Assign) and len(s.targets) == 1 and isinstance(s.targets[0], ast.Name) and _loop_of(mod, s, fn) is loop):
+                good = False
+                break
+            k = const_value(s.value, 'x')
+            if k != 'x' and k is not None and k in (False, 0):
+                clears.append(s)
+            elif u(canon(s.value)) != Et:
+                good = False
+                break
+            if not _straight_to_header(fi, loop, s):
+                good = False
+                break
+        if not good:
+            continue
+        # every way round the loop ends in one of these statements: walk back from the header through pure tests
+        seen, work, ends = set(), [p for p in fi.cfg.pred.get(loop, []) if p is loop or _inside(mod, getattr(p, 'owner', p), loop)], True
+        while work and ends:
+            n = work.pop()
+            if id(n) in seen or n in inner:
+                continue
+            seen.add(id(n))
+            if isinstance(n, (Assume, ast.Pass, ast.Continue)) or (isinstance(n, ast.If) and is_pure(n.test)):
+                work += fi.cfg.pred.get(n, [])
+            else:
+                ends = False      # (also the loop header itself: an iteration that executes nothing)
+        if not ends:
+            continue
+        return FLAG, clears, [E] + [v for v in vals if v is not cand]
+    return None
+
+
+def _straight_to_header(fi, loop, s):
+    """After statement `s` nothing is executed before control is back at the header of `loop`: only pure branch
+    tests, `pass` and `continue` lie in between."""
+    from ..normal import is_pure
+    seen, work = set(), list(fi.cfg.succ.get(s, []))
+    if not work:
+        return False
+    while work:
+        n = work.pop()
+        if n is loop or id(n) in seen:
+            continue
+        seen.add(id(n))
+        if isinstance(n, (Assume, ast.Pass, ast.Continue)) or (isinstance(n, ast.If) and is_pure(n.test)):
+            work += fi.cfg.succ.get(n, [])
+        else:
+            return False
+    return True
+
+
 def _after_guard(mod, cfg, g, s):
     """Statement s is executed only after the exit test of guard g was taken with the CONTINUING outcome: the test
     dominates s and s does not sit on the leaving side (if/else and guard-clause spellings alike)."""
@@ -1654,10 +2006,16 @@ def d4_paths(ck, mod, schemes=None):
                 clears = fb[1]
                 header = _header_limits(fi, loop, npaths, cutoff, tests=fb[2]) if fb[2] else []
             else:
-                header = _header_limits(fi, loop, npaths, cutoff)
+                fh = _flag_header(mod, fn, fi, loop)
+                if fh is not None:
+                    clears = fh[1]
+                    header = _header_limits(fi, loop, npaths, cutoff, tests=fh[2])
+                else:
+                    header = _header_limits(fi, loop, npaths, cutoff)
         if flag is None and header is None:
             ck.missing(rule + '.loop', 'loop condition `%s` of the path loop is neither constant, nor a flag that is set once per iteration with everything '
-                       'after it guarded by the flag, nor a conjunction of tests of num_paths / flux_cutoff: exits through the loop test are not modelled' % u(loop.test))
+                       'after it guarded by the flag, nor a flag that holds the value of a limit test at every evaluation of the loop test, '
+                       'nor a conjunction of tests of num_paths / flux_cutoff: exits through the loop test are not modelled' % u(loop.test))
             return
 
     # ---- the removal: `W = <callable>(W, PATH)` in the loop; W is a copy of the parameter before the loop
